@@ -48,7 +48,8 @@ func decodeWith(codecName string, nb datamodel.NodeAssembler, b []byte) error {
 	return dagjson.Decode(nb, bytes.NewReader(b))
 }
 
-func observeEnc(codecName string, n datamodel.Node) string {
+// observeEnc returns the observation and the encoded bytes (nil when encoding failed)
+func observeEnc(codecName string, n datamodel.Node) (string, []byte) {
 	var sb strings.Builder
 	var buf bytes.Buffer
 	err := lib.Safely(func() error { return encodeWith(codecName, n, &buf) })
@@ -58,7 +59,7 @@ func observeEnc(codecName string, n datamodel.Node) string {
 		} else {
 			sb.WriteString("err|-")
 		}
-		return sb.String()
+		return sb.String(), nil
 	}
 	sb.WriteString("ok:" + lib.Hex(buf.String()))
 	sb.WriteByte('|')
@@ -69,11 +70,10 @@ func observeEnc(codecName string, n datamodel.Node) string {
 	} else {
 		sb.WriteString("dec:" + lib.Dump(nb.Build()))
 	}
-	return sb.String()
+	return sb.String(), buf.Bytes()
 }
 
 func runEnc(out *lib.Out, id, codecName, holder string, v *lib.Val) {
-	ftab, ctab, ptab := lib.JsonTables(v)
 	var n datamodel.Node
 	err := lib.Safely(func() error {
 		var e error
@@ -81,10 +81,14 @@ func runEnc(out *lib.Out, id, codecName, holder string, v *lib.Val) {
 		return e
 	})
 	if err != nil {
+		ftab, ctab, ptab := lib.JsonTables(v, nil)
 		out.Case(id, "enc", codecName, holder, v.Text(), ftab, ctab, ptab, "builderr")
 		return
 	}
-	out.Case(id, "enc", codecName, holder, v.Text(), ftab, ctab, ptab, observeEnc(codecName, n))
+	obs, encoded := observeEnc(codecName, n)
+	// the tables cover the strings of the value AND the strings of the text the decoder is given
+	ftab, ctab, ptab := lib.JsonTables(v, encoded)
+	out.Case(id, "enc", codecName, holder, v.Text(), ftab, ctab, ptab, obs)
 }
 
 type decOpts struct {
